@@ -8,6 +8,8 @@ four invocations print (as category/item entries) and their exit status;
 import ReuseVerif.Lemmas.ReportMain
 import ReuseVerif.Spec.Lint
 import ReuseVerif.Theorems.C06
+import ReuseVerif.Theorems.C01
+import ReuseVerif.Lemmas.SpdxE2E
 
 namespace C13
 open Py Spec Model
@@ -98,9 +100,187 @@ theorem C13_lint_file_only_covered (tbl : LicenseMap) (pr : Project) (F F' : Lis
     by_cases h1 : f.path ∈ F <;> simp_all
   simp only [lintFile, subsetReport, List.contains_eq_mem, this]
 
+/-! ## The composed model: `reuse lint-file` and the formats of `reuse lint` from the tree
+
+`Model.lintFileE2E` / `Model.lintCmdE2E` (Model/SpdxE2E.lean) put the glue into the model: the FILE
+arguments are resolved against the working directory (`resolveArg`: `.`, `..`, existence, leaving the
+root), the subset report is `Model.lintFile` on the abstract project of the composed lint model
+(`Model.projectOf`: C03 walk, own source, REUSE.toml chain, extraction, C04 attribution), the formatters
+are applied to the report of `Model.lintE2E`.  The theorems are composition corollaries of `C13_lint_file`,
+`C13_formats_agree`, `C13_exit` with `C01_e2e_files` / `C01_e2e_verdict_partial` / `C01_e2e_read_errors` …;
+hypotheses as there (`noRefInTable`, `plainNames` for the verdict). -/
+
+section E2E
+variable {tbl : LicenseMap} {c : E2ECfg} {g : GlobalLic} {tree : ETree} {cwd : List String} {args : List PathArg}
+
+/-- How `reuse lint-file ARGS…` ends on a tree: a report exactly when every argument exists, the
+    project loads, and no argument leaves the root. -/
+theorem C13_e2e_outcome (out : List Entry) (e : Nat) :
+    lintFileE2E tbl c tree cwd args = .ok out e ↔
+      (∀ a ∈ args, resolveArg tree cwd a ≠ .missing) ∧ (∀ a ∈ args, resolveArg tree cwd a ≠ .outside) ∧
+      ∃ g, globalOf c tree = some g ∧
+        lintFile tbl (projectOf c g tree) ((namedPaths tree cwd args).map relText) = some (out, e) := by
+  unfold lintFileE2E
+  simp only [List.contains_eq_mem, List.mem_map, decide_eq_true_eq]
+  by_cases hm : ∃ a ∈ args, resolveArg tree cwd a = .missing
+  · simp only [hm, ↓reduceIte]
+    constructor
+    · intro h; cases h
+    · rintro ⟨h, _⟩; obtain ⟨a, ha, he⟩ := hm; exact absurd he (h a ha)
+  · simp only [hm, ↓reduceIte]
+    have hm' : ∀ a ∈ args, resolveArg tree cwd a ≠ .missing := fun a ha he => hm ⟨a, ha, he⟩
+    cases hg : globalOf c tree with
+    | none => simp
+    | some g =>
+      simp only []
+      cases hl : lintFile tbl (projectOf c g tree) ((namedPaths tree cwd args).map relText) with
+      | none => simp [hl]
+      | some oe =>
+        obtain ⟨o1, e1⟩ := oe
+        simp only []
+        by_cases ho : ∃ a ∈ args, resolveArg tree cwd a = .outside
+        · simp only [ho, ↓reduceIte]
+          constructor
+          · intro h; cases h
+          · rintro ⟨_, h, _⟩; obtain ⟨a, ha, he⟩ := ho; exact absurd he (h a ha)
+        · simp only [ho, ↓reduceIte, LintFileOut.ok.injEq, Option.some.injEq, exists_eq_left', hl, Prod.mk.injEq]
+          constructor
+          · rintro ⟨rfl, rfl⟩; exact ⟨hm', fun a ha he => ho ⟨a, ha, he⟩, rfl, rfl⟩
+          · rintro ⟨_, _, h⟩; exact h
+
+/-- `lint-file ARGS…` on the tree = the composed lint report restricted to the covered files among the
+    entries the arguments denote: exactly the per-file problem lines `lint` has (in its lines format) for
+    those files, nothing about any other file, only the four per-file kinds, each line about a covered
+    file of the tree (`Spec.Covered`), and exit status 1 iff anything is printed.
+    Composition of `C13_lint_file` with the composed model (`C01_e2e_files`). -/
+theorem C13_e2e_lint_file {files : List EFile} {r : Report} {out : List Entry} {e : Nat}
+    (hl : lintE2E tbl c tree = .ok files r) (hf : lintFileE2E tbl c tree cwd args = .ok out e) :
+    (∀ x, x ∈ out ↔ x ∈ fmtSubset r ∧ ∃ q, Named tree cwd args q ∧ entryPath x = relText q) ∧
+    (∀ x ∈ out, perFile x.1 = true ∧
+      ∃ p, Covered (c.walk false) "" (toNodes tree) p ∧ entryPath x = relText p) ∧
+    (e = 1 ↔ out ≠ []) ∧ (e = 0 ↔ out = []) := by
+  obtain ⟨_, _, g, hg, hlf⟩ := (C13_e2e_outcome out e).mp hf
+  obtain ⟨g', hg', hgen, _⟩ := lintE2E_ok hl
+  rw [hg] at hg'; cases hg'
+  obtain ⟨h1, h2, h3, h4⟩ := C13_lint_file tbl _ _ r out e hgen hlf
+  have hin : ∀ x, entryPath x ∈ (namedPaths tree cwd args).map relText ↔
+      ∃ q, Named tree cwd args q ∧ entryPath x = relText q := by
+    intro x
+    simp only [List.mem_map, mem_namedPaths]
+    constructor
+    · rintro ⟨q, hq, he⟩; exact ⟨q, hq, he.symm⟩
+    · rintro ⟨q, hq, he⟩; exact ⟨q, hq, he.symm⟩
+  refine ⟨fun x => by rw [h1 x, hin x], fun x hx => ⟨h2 x hx, ?_⟩, h3, h4⟩
+  obtain ⟨fd, _, rfl⟩ := split_generate hgen
+  obtain ⟨f, hf', he⟩ := fmtSubset_path ((h1 x).mp hx).1
+  obtain ⟨p, hp, rfl⟩ := mem_projectFiles.mp hf'
+  exact ⟨p, (C01.C01_e2e_covered p).mp hp, he⟩
+
+/-- Arguments that denote the same covered files give the same run: entries that are not covered files
+    (directories, files inside excluded directories, LICENSES/ entries, `.license` siblings …) and
+    repetitions contribute nothing. -/
+theorem C13_e2e_only_covered {args' : List PathArg}
+    (h : ∀ p, CoveredT c tree p →
+      (relText p ∈ (namedPaths tree cwd args).map relText ↔ relText p ∈ (namedPaths tree cwd args').map relText)) :
+    lintFile tbl (projectOf c g tree) ((namedPaths tree cwd args).map relText)
+      = lintFile tbl (projectOf c g tree) ((namedPaths tree cwd args').map relText) := by
+  apply C13_lint_file_only_covered
+  intro f hf
+  obtain ⟨p, hp, rfl⟩ := mem_projectFiles.mp hf
+  exact h p hp
+
+/-- A relative argument is resolved against the *working directory*: typed in the directory `cwd`
+    (which exists: a chain of real directories from the root), `segs` denotes what the absolute
+    path `cwd/segs` denotes. -/
+theorem C13_e2e_relative_to_cwd (segs : List String) (hcwd : resolveFrom tree [] cwd = .found cwd) :
+    resolveArg tree cwd ⟨false, segs⟩ = resolveArg tree [] ⟨true, cwd ++ segs⟩ := by
+  simp only [resolveArg, Bool.false_eq_true, ↓reduceIte]
+  rw [resolveFrom_append, hcwd]
+
+/-- ... and an absolute argument does not depend on the working directory. -/
+theorem C13_e2e_absolute (segs : List String) (cwd cwd' : List String) :
+    resolveArg tree cwd ⟨true, segs⟩ = resolveArg tree cwd' ⟨true, segs⟩ := rfl
+
+/-- The four invocations of `reuse lint` on a tree end alike, with the verdict of the composed model,
+    which is clauses (a)–(d) read on the tree (`C01_e2e_exit_partial`). -/
+theorem C13_e2e_exit_partial {files : List EFile} {r : Report} (ht : noRefInTable tbl = true)
+    (hg : globalOf c tree = some g) (hp : plainNames tbl (licFilesOf tree) = true)
+    (hl : lintE2E tbl c tree = .ok files r) (f : Format) :
+    ∃ out e, lintCmdE2E tbl c tree f = some (out, e) ∧ (e = 0 ↔ TreeCompliant tbl c g tree) ∧
+      ∀ f', (lintCmdE2E tbl c tree f').map (·.2) = some e := by
+  refine ⟨(lintCmd f r).1, (lintCmd f r).2, by simp [lintCmdE2E, hl], ?_, fun f' => ?_⟩
+  · rw [(C13_exit r f f).2]; exact C01.C01_e2e_verdict_partial ht hg hp hl
+  · simp [lintCmdE2E, hl, (C13_exit r f' f).1]
+
+/-- The formats agree on the composed report of a non-compliant tree: per category, what `--plain` and
+    `--lines` name is what `--json` names (modulo the documented rendering of licence-level items), and
+    the per-file JSON lists are the tree-level offender sets of `C01_e2e_*`. -/
+theorem C13_e2e_formats_agree {files : List EFile} {r : Report}
+    (hg : globalOf c tree = some g) (hl : lintE2E tbl c tree = .ok files r) (hn : r.isCompliant = false) :
+    (∀ cat a b,
+      ((cat, a, b) ∈ plainNormal (fmtPlain r) ↔
+        (if cat = .noExt then (∃ p, (cat, a, p) ∈ fmtJson r) ∧ b = [] else (cat, a, b) ∈ fmtJson r)) ∧
+      ((cat, a, b) ∈ fmtLines r ↔
+        (if cat = .noExt ∨ cat = .unused ∨ cat = .deprecated then
+          (∃ l p, (cat, l, p) ∈ fmtJson r ∧ a = licPath r l) ∧ b = []
+         else (cat, a, b) ∈ fmtJson r))) ∧
+    (∀ q, (Cat.readError, q, []) ∈ fmtJson r ↔ ∃ p, CoveredT c tree p ∧ ¬ ReadableT c g tree p ∧ q = relText p) ∧
+    (∀ q, (Cat.noCopyright, q, []) ∈ fmtJson r ↔
+      ∃ p, CoveredT c tree p ∧ ReadableT c g tree p ∧ ¬ HasNotice c g tree p ∧ q = relText p) ∧
+    (∀ q, (Cat.noLicence, q, []) ∈ fmtJson r ↔
+      ∃ p, CoveredT c tree p ∧ ReadableT c g tree p ∧ ¬ HasLicence c g tree p ∧ q = relText p) := by
+  refine ⟨fun cat a b => C13_formats_agree r hn cat a b, fun q => ?_, fun q => ?_, fun q => ?_⟩
+  · rw [C13_json, ← C01.C01_e2e_read_errors hg hl q]; simp [Reported]
+  · rw [C13_json, ← C01.C01_e2e_no_copyright hg hl q]; simp [Reported]
+  · rw [C13_json, ← C01.C01_e2e_no_licence hg hl q]; simp [Reported]
+
+/-- With names that are non-empty and slash-free (any real file system) the two readings meet in one
+    file: a line is printed iff it is one of lint's per-file lines about a covered file that an argument
+    denotes. -/
+theorem C13_e2e_lint_file_named {files : List EFile} {r : Report} {out : List Entry} {e : Nat}
+    (hl : lintE2E tbl c tree = .ok files r) (hf : lintFileE2E tbl c tree cwd args = .ok out e)
+    (hgood : ∀ q, (CoveredT c tree q ∨ Named tree cwd args q) → goodNames q) (x : Entry) :
+    x ∈ out ↔ x ∈ fmtSubset r ∧
+      ∃ p, Covered (c.walk false) "" (toNodes tree) p ∧ Named tree cwd args p ∧ entryPath x = relText p := by
+  obtain ⟨h1, h2, _, _⟩ := C13_e2e_lint_file hl hf
+  constructor
+  · intro hx
+    obtain ⟨hs, q, hq, heq⟩ := (h1 x).mp hx
+    obtain ⟨_, p, hp, hep⟩ := h2 x hx
+    refine ⟨hs, p, hp, ?_, hep⟩
+    have hpne : p ≠ [] := by obtain ⟨_, _, hne, _⟩ := hp; exact hne
+    have : p = q := relText_inj' hpne (hgood p (.inl ((C01.C01_e2e_covered p).mpr hp))) (hgood q (.inr hq)) (hep.symm.trans heq)
+    rw [this]; exact hq
+  · rintro ⟨hs, p, _, hn, hep⟩
+    exact (h1 x).mpr ⟨hs, p, hn, hep⟩
+
+end E2E
+
 -- Non-vacuity: the demo project of C06 is not compliant, and lint-file on one of its files.
 example : (generate spdxTable C06.demo).map (·.isCompliant) = some false := by decide +kernel
 example : (lintFile spdxTable C06.demo ["b.c".toList, "LICENSES".toList, "nowhere.txt".toList]).map (·.2) = some 1 := by
   decide +kernel
+
+-- the composed statements: lint-file on a tree, and path resolution (`.`, `..`, a file used as a directory,
+-- a symlink, leaving the root)
+example (c : E2ECfg) : ∃ out e, lintFileE2E spdxTable c [("l", .symlink)] [] [] = .ok out e := by
+  refine ⟨[], 0, ?_⟩
+  simp [lintFileE2E, namedPaths, lintFile, subsetReport, generateOn, fmtSubset, one, two, subsetCompliant,
+    Report.noLicence, Report.noCopyright, globalOf, hasDep5, subtree, elookup, tomlFiles, iterFiles, toNodes,
+    ENode.toNode, walkList, walkNode, projectOf, filesOf, coveredFiles, licFilesOf, findLicenses, findLoop]
+example : resolveArg [("d", .dir [("a", .file [1])]), ("l", .symlink)] ["d"] ⟨false, ["..", "d", ".", "a"]⟩ = .found ["d", "a"] := by decide
+example : resolveArg [("d", .dir [("a", .file [1])]), ("l", .symlink)] ["d"] ⟨false, ["a", ".."]⟩ = .missing := by decide
+example : resolveArg [("d", .dir [("a", .file [1])]), ("l", .symlink)] [] ⟨true, ["l"]⟩ = .missing := by decide
+example : resolveArg [("d", .dir [("a", .file [1])]), ("l", .symlink)] ["d"] ⟨false, ["..", ".."]⟩ = .outside := by decide
+example : resolveFrom [("d", .dir [("a", .file [1])])] [] ["d"] = .found ["d"] := by decide
+
+-- ... and the naming / well-formedness hypotheses of the bijection statements
+example : goodNames ["a b", "x.py"] := by
+  intro s hs
+  simp only [List.mem_cons, List.mem_nil_iff, or_false] at hs
+  rcases hs with rfl | rfl <;> decide
+example : ¬ goodNames ["a/b"] := by
+  intro h; exact (h "a/b" (by simp)).2 (by decide)
+example : wfEntries [("a.py", .file [35]), ("d", .dir [("a.py", .file [])])] := by simp [wfEntries, wfNode]
 
 end C13
